@@ -1,0 +1,74 @@
+//go:build verif
+
+package frugal
+
+import (
+	"io"
+
+	"github.com/apache/thrift/lib/go/thrift"
+)
+
+// Pure re-exports of unexported functions for the verification harness
+// (build tag `verif` only). No logic lives here.
+
+func VerifMarshalHeaders(h map[string]string) []byte { return v0Marshaler.marshalHeaders(h) }
+
+func VerifCalculateHeaderSize(h map[string]string) int32 { return v0Marshaler.calculateHeaderSize(h) }
+
+func VerifReadHeader(r io.Reader) (map[string]string, error) { return readHeader(r) }
+
+func VerifGetHeadersFromFrame(frame []byte) (map[string]string, error) {
+	return getHeadersFromFrame(frame)
+}
+
+func VerifAddHeadersToFrame(frame []byte, h map[string]string) ([]byte, error) {
+	return addHeadersToFrame(frame, h)
+}
+
+// VerifUnmarshalFrame returns the components of unmarshalFrame.
+func VerifUnmarshalFrame(frame []byte) (frameSize uint32, version byte, headers map[string]string, payload []byte, err error) {
+	c, err := unmarshalFrame(frame)
+	if c == nil {
+		return 0, 0, nil, nil, err
+	}
+	return c.frameSize, c.protocolVersion, c.headers, c.payload, err
+}
+
+// VerifRegistry exposes the client registry.
+type VerifRegistry interface {
+	Register(ctx FContext, resultC chan []byte) error
+	Unregister(ctx FContext)
+	Execute(frame []byte) error
+}
+
+func VerifNewRegistry() VerifRegistry { return newFRegistry() }
+
+// VerifRegistrySize returns the number of registered op ids.
+func VerifRegistrySize(r VerifRegistry) int {
+	impl := r.(*fRegistryImpl)
+	impl.mu.RLock()
+	defer impl.mu.RUnlock()
+	return len(impl.channels)
+}
+
+// VerifAdapterRegistrySize returns the registry size of an adapter transport.
+func VerifAdapterRegistrySize(t FTransport) int {
+	return VerifRegistrySize(t.(*fAdapterTransport).registry)
+}
+
+// VerifNatsRegistrySize returns the registry size of a NATS transport.
+func VerifNatsRegistrySize(t FTransport) int {
+	return VerifRegistrySize(t.(*fNatsTransport).registry)
+}
+
+// VerifBaseTransportExecuteFrame calls fBaseTransport.ExecuteFrame on a fresh
+// base transport with an empty registry.
+func VerifBaseTransportExecuteFrame(frame []byte) error {
+	return newFBaseTransport(0).ExecuteFrame(frame)
+}
+
+func VerifGetOpID(ctx FContext) (uint64, error) { return getOpID(ctx) }
+
+func VerifPrependFrameSize(b []byte) []byte { return prependFrameSize(b) }
+
+var _ = thrift.INVALID_DATA
